@@ -848,7 +848,9 @@ Proof.
   assert (S4 : steps s s4) by (eapply st_step; [exact P1|]; eapply steps_trans; [exact P3 | exact A]).
   assert (Hp4 : pq s4 = []) by (rewrite B; exact Hp3).
   destruct (negb (fdopen s4)); [split; auto|].
-  destruct (error <? 0)%Z; [|split; auto].
+  destruct (error <? 0)%Z.
+  2: { destruct (cq s4); [split; auto|]. split; [|exact Hp4].
+       eapply steps_trans; [exact S4|]. apply steps_one, p_silent; sc. }
   assert (P5 : prim s4 (flush s4)) by apply p_flush.
   destruct (write_callbacks_sim (flush s4) Hp4) as (C & D & _).
   set (s5 := write_callbacks beh (flush s4)) in *.
@@ -2659,7 +2661,8 @@ Proof.
   set (s4 := run_cb beh (ev (EConnCb error) s3)) in *.
   assert (K : KC s s4) by (eapply KC_trans; eauto).
   destruct (negb (fdopen s4)); auto.
-  destruct (error <? 0)%Z; auto.
+  destruct (error <? 0)%Z.
+  2: { destruct (cq s4); [exact K|]. eapply KC_trans; [exact K | apply KC_same; reflexivity]. }
   assert (K5 : KC s (write_callbacks beh (flush s4))).
   { eapply KC_trans; [exact K|]. eapply KC_trans; [apply (KC_same s4 (flush s4)); reflexivity|].
     apply write_callbacks_kc. }
@@ -2667,6 +2670,13 @@ Proof.
   destruct (shutreq s5 && negb (connecting s5) && fdopen s5); auto.
   destruct (wq s5); auto. destruct (cq s5); auto.
   eapply KC_trans; [exact K5 | apply drain_kc].
+Qed.
+
+Lemma Prog_fed s : Prog s -> Prog (set_fed true s).
+Proof.
+  intros [F [H|H]]; split; try exact F; [left; exact H | right].
+  change (connecting (set_fed true s)) with (connecting s).
+  destruct (connecting s); [destruct H as [H1 H2]; split; [exact H1 | right; reflexivity] | right; right; reflexivity].
 Qed.
 
 Lemma stream_connect_prog s : FC s -> connecting s = true -> C1 s -> Prog (stream_connect beh s).
@@ -2724,7 +2734,8 @@ Proof.
       change (wq (ev (EConnCb error) s3)) with (wq s3). change (armed (ev (EConnCb error) s3)) with (armed s3).
       rewrite E3w. destruct Ha3 as [X|X]; [left; exact X | right; left; exact X]. }
     pose proof (run_cb_prog _ P3) as P4.
-    destruct (negb (fdopen (run_cb beh (ev (EConnCb error) s3)))); exact P4.
+    destruct (negb (fdopen (run_cb beh (ev (EConnCb error) s3)))); [exact P4|].
+    destruct (cq (run_cb beh (ev (EConnCb error) s3))); [exact P4 | apply Prog_fed, P4].
 Qed.
 
 Lemma stream_io_kc s : KC s (stream_io beh s).
@@ -3526,6 +3537,14 @@ Proof.
   destruct (run_cb_b3_sp s5 P5) as [X Y]. split; auto.
 Qed.
 
+Lemma B3_fed s : B3 s -> B3 (set_fed true s).
+Proof.
+  intros [H|(N & _ & C)]; [left; exact H | right]. split; [exact N | split; [right; reflexivity | exact C]].
+Qed.
+
+Lemma SP_fed s : SP s -> SP (set_fed true s).
+Proof. intros _. right; right; right. reflexivity. Qed.
+
 Lemma stream_connect_b3_sp s :
   FC s -> connecting s = true -> C1 s -> closing s = true \/ (NS s /\ CC s) ->
   B3 (stream_connect beh s) /\ SP (stream_connect beh s).
@@ -3619,7 +3638,9 @@ Proof.
     { destruct Ha3 as [[_ X]|X]; [right; left; change (shutreq s3e) with (shutreq s3); rewrite E3r; exact X
                                 | right; right; left; exact X]. }
     destruct (run_cb_b3_sp s3e P3) as [X Y].
-    destruct (negb (fdopen (run_cb beh s3e))); split; auto.
+    destruct (negb (fdopen (run_cb beh s3e))); [split; auto|].
+    destruct (cq (run_cb beh s3e)); [split; auto|].
+    split; [apply B3_fed | apply SP_fed]; auto.
 Qed.
 
 Lemma stream_io_b3_sp s :
@@ -3952,36 +3973,20 @@ Proof.
 Qed.
 
 (* ------------------------------------------------------------------ *)
-(* finished requests keep their wake-up - unless a connect is started  *)
-(* on the handle while they wait in write_completed_queue              *)
+(* finished requests keep a wake-up until their callbacks run          *)
 (* ------------------------------------------------------------------ *)
-(* ghost: such a connect has been accepted *)
-Definition G (s : st) : Prop := exists l, In (EOrphan l) (tr s).
-
+(* a request in write_completed_queue has the watcher in the pending queue, or a connect is pending
+   (whose completion hands the wake-up back - uv__io_feed in uv__stream_connect - or, when it
+   fails, runs uv__write_callbacks itself; [Prog] gives the pending connect its wake-up) *)
 Definition LB0 (s : st) : Prop :=
-  closing s = true \/ ((cq s = [] \/ fed s = true) /\ CC s).
-Definition LB (s : st) : Prop := G s \/ LB0 s.
-(* what uv__stream_io needs on entry (the watcher may just have left the pending queue) *)
-Definition LW (s : st) : Prop := G s \/ closing s = true \/ CC s.
-
-Lemma G_steps s s' : steps s s' -> G s -> G s'.
-Proof. intros S [l H]. destruct (steps_tr _ _ S) as [es E]. exists l. rewrite E. apply in_or_app. right. exact H. Qed.
-
-Lemma G_ev e s : G s -> G (ev e s).
-Proof. intros [l H]. exists l. right. exact H. Qed.
+  closing s = true \/ cq s = [] \/ fed s = true \/ connecting s = true.
 
 Lemma LB0_same s s' :
   closing s' = closing s -> cq s' = cq s -> fed s' = fed s -> connecting s' = connecting s -> LB0 s -> LB0 s'.
-Proof. unfold LB0, CC. intros -> -> -> ->. auto. Qed.
+Proof. unfold LB0. intros -> -> -> ->. auto. Qed.
 
 Lemma LB0_nil s : cq s = [] -> LB0 s.
-Proof. intros H. right. split; [left; exact H | intros _; exact H]. Qed.
-
-Lemma orphan_lb x : cq x = [] \/ G (orphan x).
-Proof. unfold orphan. destruct (cq x); [left; reflexivity | right; eexists; left; reflexivity]. Qed.
-
-Lemma orphan_nil x : cq x = [] -> orphan x = x.
-Proof. unfold orphan. intros ->. reflexivity. Qed.
+Proof. intros H. right; left. exact H. Qed.
 
 Lemma enq_lb (s0 s1 : st) :
   closing s1 = closing s0 -> cq s1 = cq s0 -> fed s1 = fed s0 -> connecting s1 = connecting s0 ->
@@ -3995,9 +4000,11 @@ Proof.
   - destruct e.
     + destruct (uv_write_queue_frame s1) as (A & _ & C & _).
       destruct (uv_write_queue_q s1) as (_ & _ & _ & Q4).
-      intros [H|(Q & Cc)]; [left; rewrite A, E1; exact H | right].
-      split; [|unfold CC; rewrite C, Hc; discriminate].
-      destruct Q4 as [X|[X Y]]; [right; exact X|]. rewrite X, Y, E4, E5. exact Q.
+      intros [H|[H|[H|H]]].
+      * left. rewrite A, E1. exact H.
+      * destruct Q4 as [X|[X Y]]; [right; right; left; exact X | right; left; rewrite X, E4; exact H].
+      * destruct Q4 as [X|[X Y]]; right; right; left; [exact X | rewrite Y, E5; exact H].
+      * congruence.
     + apply LB0_same; cbn; auto. congruence.
 Qed.
 
@@ -4019,8 +4026,7 @@ Proof.
     destruct (negb (writable s) || shut s || shutreq s || closing s || closed s); [apply LB0_same; auto|].
     cbn. destruct (connecting s) eqn:Hcn; [apply LB0_same; auto|].
     destruct (wq s); [|apply LB0_same; auto].
-    intros [H|(Q & Cc)]; [left; exact H | right]. split; [right; reflexivity|].
-    unfold CC. cbn. rewrite Hcn. discriminate.
+    intros _. right; right; left. reflexivity.
   - unfold api_close. destruct (closing s) eqn:Hc; [auto|]. intros _. left. reflexivity.
   - unfold api_write2.
     set (s0 := ev (EWrite2 (next_id s)) (ev (EWrite (next_id s) (sumN bufs)) (set_next_id (S (next_id s)) s))).
@@ -4058,145 +4064,114 @@ Proof.
     intros _. left. reflexivity.
 Qed.
 
-Ltac start_case :=
-  match goal with |- LB (orphan ?X) =>
-    destruct (orphan_lb X) as [Hq|Hg];
-      [rewrite (orphan_nil _ Hq); right; apply LB0_nil; exact Hq | left; exact Hg] end.
-
-(* a connect accepted while finished requests wait sets the ghost; otherwise the queue is empty *)
-Lemma api_connect_lb s : LB0 s -> LB (api_connect s).
+(* an accepted connect is pending afterwards: whatever waits in write_completed_queue waits with it *)
+Lemma api_connect_lb s : LB0 s -> LB0 (api_connect s).
 Proof.
   intros H. unfold api_connect.
-  destruct (closing s || negb (fdopen s) || connected s); [right; exact H|].
+  destruct (closing s || negb (fdopen s) || connected s); [exact H|].
   destruct (connecting s) eqn:Hcg.
-  { destruct (is_tcp s); right; [apply (LB0_same s); auto | exact H]. }
+  { destruct (is_tcp s); [apply (LB0_same s); auto | exact H]. }
   set (cres := match connres s with [] => None | c :: _ => c end).
   set (sA := set_connres (tl (connres s)) s).
   change (is_tcp sA) with (is_tcp s). change (writable sA) with (writable s). change (readable sA) with (readable s).
+  assert (St : forall x, connecting x = true -> LB0 (orphan x)).
+  { intros x Hx. right; right; right. destruct (orphan_cases x) as [-> | [l ->]]; exact Hx. }
   destruct (is_tcp s).
   - destruct (conn_pending_ok cres).
-    + destruct (writable s); start_case.
+    + destruct (writable s); apply St; reflexivity.
     + destruct (match cres with Some 111%positive => true | _ => false end).
-      * destruct (writable s); start_case.
-      * destruct (writable s); right; apply (LB0_same s); auto.
+      * destruct (writable s); apply St; reflexivity.
+      * destruct (writable s); apply (LB0_same s); auto.
   - destruct (conn_pending_ok cres).
-    + destruct (negb (readable s) && negb (writable s)); start_case.
-    + start_case.
+    + destruct (negb (readable s) && negb (writable s)); apply St; reflexivity.
+    + apply St; reflexivity.
 Qed.
 
-Lemma api_lb s o : LB s -> LB (api s o).
+Lemma api_lb s o : LB0 s -> LB0 (api s o).
 Proof.
-  intros [H|H]; [left; apply (G_steps _ _ (proj1 (api_sim s o))); exact H|].
-  destruct o; try (right; apply api_lb0; [discriminate | exact H]).
+  intros H. destruct o; try (apply api_lb0; [discriminate | exact H]).
   apply api_connect_lb; exact H.
 Qed.
 
-Lemma apis_lb os : forall s, LB s -> LB (apis s os).
+Lemma apis_lb os : forall s, LB0 s -> LB0 (apis s os).
 Proof. induction os as [|o os IH]; intros s H; cbn [apis]; auto. apply IH, api_lb, H. Qed.
 
 Section Delivery.
 Variable beh : nat -> list op.
 
-Lemma run_cb_lb s : LB s -> LB (run_cb beh s).
-Proof.
-  intros H. unfold run_cb. apply apis_lb. destruct H as [H|H]; [left; exact H | right].
-  apply (LB0_same s); auto.
-Qed.
+Lemma run_cb_lb s : LB0 s -> LB0 (run_cb beh s).
+Proof. intros H. unfold run_cb. apply apis_lb. apply (LB0_same s); auto. Qed.
 
-Lemma run_cb_g s : G s -> G (run_cb beh s).
-Proof. apply G_steps. apply run_cb_sim. Qed.
-
-Lemma cb_loop_lb l : forall s, LB s -> LB (cb_loop beh l s).
+Lemma cb_loop_lb l : forall s, LB0 s -> LB0 (cb_loop beh l s).
 Proof.
   induction l as [|r rest IH]; intros s H; cbn [cb_loop]; auto.
   cbv zeta. apply IH, run_cb_lb.
-  destruct H as [H|H]; [left; apply G_ev; destruct (r_freed r); exact H | right].
   apply (LB0_same s); auto; destruct (r_freed r); reflexivity.
 Qed.
 
 (* after uv__write_callbacks the completed queue is empty, or a callback finished new requests
-   (which feeds the watcher) - whatever the state before *)
-Lemma write_callbacks_lb s : LB (write_callbacks beh s).
+   (which feeds the watcher), or started a connect - whatever the state before *)
+Lemma write_callbacks_lb s : LB0 (write_callbacks beh s).
 Proof.
   unfold write_callbacks. destruct (cq s) as [|r l] eqn:Hc.
-  - right. apply LB0_nil. exact Hc.
-  - apply cb_loop_lb. right. apply LB0_nil. reflexivity.
+  - apply LB0_nil. exact Hc.
+  - apply cb_loop_lb. apply LB0_nil. reflexivity.
 Qed.
 
-Lemma drain_g s : G s -> G (drain beh s).
+Lemma drain_lb s : closing s = true \/ cq s = [] -> LB0 (drain beh s).
 Proof.
-  intros H. unfold drain.
-  set (s1 := if closing s then s else set_armed false s).
-  assert (H1 : G s1) by (unfold s1; destruct (closing s); exact H).
-  destruct (negb (shutreq s1)); [exact H1|].
-  destruct (closing s1 || negb (shut s1)); [|exact H1].
-  cbv zeta. destruct (closing (set_shutreq false s1)).
-  - apply run_cb_g, G_ev. exact H1.
-  - destruct (_ =? 0)%Z; apply run_cb_g, G_ev; [apply (G_ev (ESysShut _) (set_shutreq false s1)) | apply G_ev]; exact H1.
-Qed.
-
-Lemma drain_lb s : connecting s = false -> G s \/ closing s = true \/ cq s = [] -> LB (drain beh s).
-Proof.
-  intros Hc [H|H]; [left; apply drain_g; exact H|].
-  destruct (drain_shape beh s) as (s5 & E & A & _ & C & _ & _ & _ & _ & Q & _).
-  assert (L5 : LB s5).
-  { right. destruct H as [H|H]; [left; rewrite A; exact H | apply LB0_nil; rewrite Q; exact H]. }
+  intros H.
+  destruct (drain_shape beh s) as (s5 & E & A & _ & _ & _ & _ & _ & _ & Q & _).
+  assert (L5 : LB0 s5).
+  { destruct H as [H|H]; [left; rewrite A; exact H | apply LB0_nil; rewrite Q; exact H]. }
   destruct E as [E|E]; rewrite E; [exact L5 | apply run_cb_lb; exact L5].
 Qed.
 
-Lemma stream_connect_lb s : connecting s = true -> pq s = [] -> LW s -> LB (stream_connect beh s).
+(* uv__stream_connect re-establishes the invariant on every path, whatever waited on entry *)
+Lemma stream_connect_lb s : FC s -> connecting s = true -> LB0 (stream_connect beh s).
 Proof.
-  intros Hc Hp [H|[H|Cc]].
-  { left. apply (G_steps _ _ (proj1 (stream_connect_sim beh s Hc Hp))). exact H. }
-  { right; left. apply (proj1 (stream_connect_kc beh s)). exact H. }
-  unfold stream_connect.
+  intros F Hc. unfold stream_connect.
   match goal with |- context [let '(error, s1) := ?X in _] => destruct X as [error s1] eqn:HX end.
-  assert (E1 : cq s1 = cq s).
-  { destruct (negb (derr s =? 0)%Z); [inversion HX; reflexivity|].
-    destruct (sockerr s); inversion HX; reflexivity. }
-  assert (Hcq : cq s1 = []) by (rewrite E1; apply Cc; exact Hc).
-  destruct (Z.eqb_spec error (- EINPROGRESS)) as [He|He]; [right; apply LB0_nil; exact Hcq|].
+  assert (E1 : closing s1 = closing s /\ fdopen s1 = fdopen s /\ connecting s1 = connecting s).
+  { destruct (negb (derr s =? 0)%Z); [inversion HX; auto|]. destruct (sockerr s); inversion HX; auto. }
+  destruct E1 as (Ec & Ef & Eco).
+  destruct (error =? - EINPROGRESS)%Z; [right; right; right; rewrite Eco; exact Hc|].
   set (s2 := set_connecting false s1).
   match goal with |- context [run_cb beh (ev (EConnCb error) ?x)] => set (s3 := x) end.
-  assert (E3 : cq s3 = cq s1).
-  { unfold s3. destruct (error <? 0)%Z; destruct ((_ : bool) || _); reflexivity. }
-  assert (L4 : LB (run_cb beh (ev (EConnCb error) s3))).
-  { apply run_cb_lb. right. apply LB0_nil. cbn. rewrite E3. exact Hcq. }
+  assert (F3 : FC (ev (EConnCb error) s3)).
+  { assert (E3 : closing s3 = closing s1 /\ fdopen s3 = fdopen s1).
+    { unfold s3. destruct (error <? 0)%Z; destruct ((_ : bool) || _); cbn; auto. }
+    destruct E3 as [E3c E3f]. unfold FC. cbn. rewrite E3c, E3f, Ec, Ef. exact F. }
+  assert (F4 : FC (run_cb beh (ev (EConnCb error) s3))) by (apply (proj2 (run_cb_kc beh _)); exact F3).
   set (s4 := run_cb beh (ev (EConnCb error) s3)) in *.
-  destruct (negb (fdopen s4)); [exact L4|].
-  destruct (error <? 0)%Z; [|exact L4].
-  pose proof (write_callbacks_lb (flush s4)) as L5.
-  set (s5 := write_callbacks beh (flush s4)) in *.
-  destruct (shutreq s5 && negb (connecting s5) && fdopen s5) eqn:Hcond; [|exact L5].
-  destruct (wq s5); [|exact L5]. destruct (cq s5) eqn:Hcq5; [|exact L5].
-  apply drain_lb; [|right; right; exact Hcq5].
-  destruct (connecting s5); [|reflexivity]. destruct (shutreq s5); discriminate Hcond.
+  destruct (fdopen s4) eqn:Hfd; cbn [negb]; [|left; apply F4; exact Hfd].
+  destruct (error <? 0)%Z.
+  - pose proof (write_callbacks_lb (flush s4)) as L5.
+    set (s5 := write_callbacks beh (flush s4)) in *.
+    destruct (shutreq s5 && negb (connecting s5) && fdopen s5); [|exact L5].
+    destruct (wq s5); [|exact L5]. destruct (cq s5) eqn:Hcq5; [|exact L5].
+    apply drain_lb. right. exact Hcq5.
+  - destruct (cq s4) eqn:Hcq; [apply LB0_nil; exact Hcq | right; right; left; reflexivity].
 Qed.
 
-Lemma stream_io_lb s : Inv0 s -> pq s = [] -> LW s -> LB (stream_io beh s).
+Lemma stream_io_lb s : FC s -> LB0 (stream_io beh s).
 Proof.
-  intros I Hp H.
+  intros F.
   unfold stream_io. destruct (connecting s) eqn:Hc; [apply stream_connect_lb; auto|].
   pose proof (write_callbacks_lb (uv_write_queue s)) as L2.
   set (s2 := write_callbacks beh (uv_write_queue s)) in *.
   destruct (connecting s2) eqn:Hc2; [exact L2|].
   destruct (wq s2); [|exact L2]. destruct (cq s2) eqn:Hcq; [|exact L2].
-  apply drain_lb; [exact Hc2 | right; right; exact Hcq].
+  apply drain_lb. right. exact Hcq.
 Qed.
 
-(* at top level: the model's bookkeeping facts, and the invariant *)
-Definition Q8 (s : st) : Prop := Inv0 s /\ pq s = [] /\ LB s.
-
-Lemma LB_LW s : LB s -> LW s.
-Proof. intros [H|[H|(_ & H)]]; [left | right; left | right; right]; exact H. Qed.
+Definition Q8 (s : st) : Prop := Prog s /\ LB0 s.
 
 Lemma run_pending_q8 s : Q8 s -> Q8 (run_pending beh s).
 Proof.
-  intros (I & Hp & H).
-  destruct (run_pending_sim beh s I Hp) as [S Hp'].
-  split; [exact (Inv0_steps _ _ S I) | split; [exact Hp'|]].
+  intros (P & H). split; [apply run_pending_prog; exact P|].
   unfold run_pending. destruct (fed s); [|exact H].
-  apply stream_io_lb; [exact I | exact Hp | apply (LB_LW s H)].
+  apply stream_io_lb. exact (proj1 P).
 Qed.
 
 Lemma pending_rounds_q8 k : forall s, Q8 s -> Q8 (pending_rounds beh k s).
@@ -4207,42 +4182,32 @@ Qed.
 
 Lemma run_iter_q8 s : Q8 s -> Q8 (run_iter beh s).
 Proof.
-  intros H.
-  assert (A0 : Inv0 (run_iter beh s) /\ pq (run_iter beh s) = []).
-  { destruct H as (I & Hp & _). destruct (run_iter_sim beh s I Hp) as [S Hp'].
-    split; [exact (Inv0_steps _ _ S I) | exact Hp']. }
-  destruct A0 as [I' Hp']. split; [exact I' | split; [exact Hp'|]].
+  intros H. split; [apply run_iter_prog; apply H|].
   unfold run_iter.
   pose proof (run_pending_q8 s H) as A.
   set (s1 := run_pending beh s) in *.
   set (s1' := set_pollw (tl (pollw s1)) s1).
   assert (H1 : Q8 s1').
-  { destruct A as (I1 & P1 & L1). split; [exact I1 | split; [exact P1|]].
-    destruct L1 as [X|X]; [left; exact X | right; apply (LB0_same s1); auto]. }
+  { destruct A as (P1 & L1). split; [apply (Prog_same s1); auto | apply (LB0_same s1); auto]. }
   match goal with |- context [if armed s1' && ?w then _ else _] => set (b := armed s1' && w) end.
   assert (H2 : Q8 (if b then stream_io beh s1' else s1')).
-  { destruct b; auto. destruct H1 as (I1 & P1 & L1).
-    destruct (stream_io_sim beh s1' I1 P1) as [S P2].
-    split; [exact (Inv0_steps _ _ S I1) | split; [exact P2 | apply stream_io_lb; auto using LB_LW]]. }
+  { destruct b; auto. destruct H1 as (P1 & L1).
+    split; [apply stream_io_prog, Prog_PreIO, P1 | apply stream_io_lb; exact (proj1 P1)]. }
   pose proof (pending_rounds_q8 8 _ H2) as H3.
   match goal with |- context [if closing ?x && _ then _ else _] => set (s3 := x) in * end.
   destruct (closing s3 && negb (closed s3)) eqn:Hc; [|apply H3].
   apply andb_prop in Hc. destruct Hc as [Hc _].
-  right; left. apply destroy_closing. exact Hc.
+  left. apply destroy_closing. exact Hc.
 Qed.
 
 Lemma step_q8 s o : Q8 s -> Q8 (step beh s o).
 Proof.
-  intros H.
-  assert (A0 : Inv0 (step beh s o) /\ pq (step beh s o) = []).
-  { destruct H as (I & Hp & _). destruct (step_sim beh s o I Hp) as [S Hp'].
-    split; [exact (Inv0_steps _ _ S I) | exact Hp']. }
-  destruct A0 as [I' Hp']. split; [exact I' | split; [exact Hp'|]].
+  intros H. split; [apply step_prog; apply H|].
   unfold step.
   set (s' := match o with ORun => run_iter beh s | _ => api s o end).
-  assert (L' : LB s').
+  assert (L' : LB0 s').
   { unfold s'. destruct o; try (apply api_lb; apply H). apply run_iter_q8. exact H. }
-  destruct L' as [X|X]; [left; apply G_ev; exact X | right; apply (LB0_same s'); auto].
+  apply (LB0_same s'); auto.
 Qed.
 
 Lemma exec_q8 os : forall s, Q8 s -> Q8 (exec beh s os).
@@ -4251,80 +4216,34 @@ Proof. induction os as [|o os IH]; intros s H; cbn [exec]; auto. apply IH, step_
 End Delivery.
 
 Lemma Q8_init blk o sa pw c ip : Q8 (init blk o sa pw c ip).
-Proof.
-  split; [apply Inv0_init | split; [apply pq_init|]]. right. apply LB0_nil. init_cases c; reflexivity.
-Qed.
+Proof. split; [apply Prog_init|]. apply LB0_nil. init_cases c; reflexivity. Qed.
 
-(* C05_cb_delivered_partial: in every run in which no connect is accepted while a finished request
-   waits in write_completed_queue for its callback (ghost event EOrphan), finished requests have
-   their watcher in the pending queue - the next loop iteration runs their callbacks - and nothing
-   is in the completed queue while a connect is pending *)
+(* C05_cb_delivered: for every script - connects started at any time, also while finished requests
+   wait for their callbacks - a request in write_completed_queue on a stream that is not closing has
+   the watcher in the pending queue (the next loop iteration runs its callback), or a connect is
+   pending, which has a wake-up of its own and whose completion delivers: on success
+   uv__stream_connect feeds the watcher, on failure it runs uv__write_callbacks *)
 Theorem cb_delivered beh blk o sa pw c ip ops :
   let s := exec beh (init blk o sa pw c ip) ops in
-  (forall l, ~ In (EOrphan l) (trace s)) -> closing s = false ->
-  (cq s <> [] -> fed s = true) /\ (connecting s = true -> cq s = []).
+  cq s <> [] -> closing s = false ->
+  fed s = true \/ (connecting s = true /\ (armed s = true \/ fed s = true)).
 Proof.
-  intros s Hn Hcl.
-  destruct (exec_q8 beh ops _ (Q8_init blk o sa pw c ip)) as (_ & _ & H). fold s in H.
-  destruct H as [H|[H|([H|H] & Cc)]].
-  - destruct H as [l H]. exfalso. apply (Hn l). unfold trace. rewrite <- in_rev. exact H.
-  - congruence.
-  - split; [intros X; contradiction | exact Cc].
-  - split; [intros _; exact H | exact Cc].
+  intros s Hq Hcl.
+  destruct (exec_q8 beh ops _ (Q8_init blk o sa pw c ip)) as (P & H). fold s in P, H.
+  destruct H as [H|[H|[H|H]]]; [congruence | contradiction | left; exact H | right].
+  split; [exact H|]. destruct P as [_ [P|P]]; [congruence|]. rewrite H in P. apply P.
 Qed.
 
-(* ------------------------------------------------------------------ *)
-(* ... and with such a connect the callback is lost for good           *)
-(* ------------------------------------------------------------------ *)
-(* an idle iteration: nothing fed, POLLOUT not armed, not closing *)
-Lemma idle_iter beh s : fed s = false -> armed s = false -> closing s = false ->
-  run_iter beh s = set_pollw (tl (pollw s)) s.
-Proof.
-  intros Hf Ha Hc. unfold run_iter, run_pending. rewrite Hf. cbv zeta.
-  change (armed (set_pollw (tl (pollw s)) s)) with (armed s). rewrite Ha. cbn [andb].
-  cbn [pending_rounds]. change (fed (set_pollw (tl (pollw s)) s)) with (fed s). rewrite Hf.
-  change (closing (set_pollw (tl (pollw s)) s)) with (closing s). rewrite Hc. reflexivity.
-Qed.
-
-Lemma exec_app beh a : forall s b, exec beh s (a ++ b) = exec beh (exec beh s a) b.
-Proof. induction a as [|o a IH]; intros s b; cbn [exec app]; auto. Qed.
-
-Definition stuck (s : st) : Prop :=
-  closing s = false /\ fed s = false /\ armed s = false /\ cq s <> [] /\
-  In (ERet 0 0%Z) (tr s) /\ ~ In O (cb_ids (tr s)).
-
-Lemma stuck_runs beh n : forall s, stuck s -> stuck (exec beh s (repeat ORun n)).
-Proof.
-  induction n as [|n IH]; intros s H; cbn [repeat exec]; auto.
-  apply IH. destruct H as (Hc & Hf & Ha & Hq & Hr & Hn).
-  unfold step. rewrite (idle_iter beh s Hf Ha Hc).
-  unfold stuck. cbn. repeat split; auto.
-Qed.
-
-Lemma cb_ids_rev' t id : In id (cb_ids (rev t)) <-> In id (cb_ids t).
-Proof. rewrite cb_ids_rev. rewrite <- in_rev. tauto. Qed.
-
-(* C05_cb_delivered_refuted: the connect fails, uv_write fails with EPIPE (the request is finished and
-   waits in write_completed_queue, the watcher is fed), uv_tcp_connect is retried and accepted; the fed
-   watcher runs uv__stream_connect, which completes the connect and stops POLLOUT; nobody looks at
-   write_completed_queue again, however often the loop runs *)
-Theorem cb_delivered_refuted :
-  exists beh cfg ops, forall n,
-    let s := exec beh (init false [AErr 32] 0%Z [] cfg false) (ops ++ repeat ORun n) in
-    In (ERet 0 0%Z) (trace s) /\ ~ In O (cb_ids (trace s)) /\
-    closing s = false /\ cq s <> [] /\ fed s = false /\ armed s = false.
-Proof.
-  exists (fun _ => []), (Some (true, Some 115%positive, [111%Z; 0%Z], [Some 103%positive; Some 115%positive])),
-         [ORun; ORun; OWrite [1]; OConnect; OConnect; ORun].
-  intros n s. unfold s. rewrite exec_app.
-  match goal with |- context [exec ?b (exec ?b ?i ?o) (repeat ORun n)] =>
-    assert (H : stuck (exec b i o)) end.
-  { vm_compute. repeat split; try discriminate; try tauto. }
-  destruct (stuck_runs (fun _ => []) n _ H) as (Hc & Hf & Ha & Hq & Hr & Hn).
-  repeat split; auto.
-  - unfold trace. rewrite <- in_rev. exact Hr.
-  - unfold trace. rewrite cb_ids_rev'. exact Hn.
-Qed.
+(* the input on which the callback was lost before the repair of uv__stream_connect (known finding
+   write_callback_lost_when_connect_started_before_delivery, now repaired): the callback runs in the
+   iteration after the connect callback *)
+Example cb_delivered_former_witness :
+  trace (exec (fun _ => []) (init false [AErr 32] 0%Z []
+                               (Some (true, Some 115%positive, [111%Z; 0%Z], [Some 103%positive; Some 115%positive])) false)
+              [ORun; ORun; OWrite [1]; OConnect; OConnect; ORun; ORun; ORun]) =
+    [EConnCb (-111); EQ 0; EQ 0; EWrite 0 1; ERet 0 0; EQ 1; EConnect (-103); EQ 1; EConnect 0; EOrphan [0%nat];
+     EQ 1; EConnCb 0; ECb 0 (-32) 0; EQ 0; EQ 0; EQ 0].
+Proof. vm_compute. reflexivity. Qed.
 
 (* ------------------------------------------------------------------ *)
 (* a refused uv_tcp_close_reset changes nothing                        *)
